@@ -611,6 +611,8 @@ def elem_of(eng, call, it):
         if op == "cloned_iter" and e.op == "refv":
             return e.args[0]
         return e
+    if op == "zipped":
+        return mk("agg", "tuple", elem_of(eng, call, it.args[0]), elem_of(eng, call, it.args[1]))
     if op == "enumerated":
         return mk("agg", "tuple", mk("range_elem", Int(0), mk("len_iter", it.args[0]), "enum"), elem_of(eng, call, it.args[0]))
     return mk("elem", it)
@@ -1431,3 +1433,13 @@ def m_serde_deserialize(eng, call, args):
     """serde deserializers report malformed input through Err (trusted: serde / the format crate)"""
     v = mk("serde_de", *args)
     return as_enum(v, "std::result::Result", RES)
+
+
+@model("std::iter::Iterator::zip")
+def m_zip(eng, call, args):
+    b = args[1]
+    if b.op in ("ref", "refv", "refo"):
+        b = mk("iter", val(eng, call, b), True, call["site"] + "z")
+    elif b.op not in ("iter", "range_iter", "mapped", "filtered", "cloned_iter", "adapted", "enumerated", "zipped"):
+        b = mk("iter", b, False, call["site"] + "z")
+    return mk("zipped", args[0], b)
